@@ -34,7 +34,7 @@ class Recorder:
         self.solves = []  # (matrix rows, rhs, trans, solution)
 
 
-def install_oracle(E, rec, faults=False):
+def install_oracle(E, rec, faults=False, max_ok_solves=None):
     """pygradflow.linear_solver.linear_solver := oracle factory"""
     LS = boot.mod("linear_solver")
     LSm = boot.mod("linear_solver.linear_solver")
@@ -51,11 +51,18 @@ def install_oracle(E, rec, faults=False):
         def solve(self, rhs, trans=False, initial_sol=None):
             if faults and bool(E.fresh_bool("ls_solve_fails")):
                 raise LSm.LinearSolverError("injected solve failure")
+            if max_ok_solves is not None and len(rec.solves) >= max_ok_solves:
+                raise Abort()  # bound: only failures of the later (condition-estimate) solves are explored
             r = items(rhs)
             M = self.rows
             n = len(M)
             if trans:
                 M = [[M[j][i] for j in range(n)] for i in range(n)]
+            replay = getattr(rec, "replay", None)
+            if replay is not None and len(rec.solves) < len(replay):
+                s = replay[len(rec.solves)]
+                rec.solves.append((M, r, trans, s))
+                return arr(s)
             s = [E.fresh_real("ls_sol") for _ in range(n)]
             if boot.MODE == "sym":
                 for i in range(n):
@@ -98,7 +105,7 @@ def spy_step_result():
     return SR
 
 
-def setup(E, shape, faults=False):
+def setup(E, shape, faults=False, max_ok_solves=None):
     P = boot.mod("params")
     Iterate = boot.mod("iterate").Iterate
     user, spec = common.make_point_problem(E, shape["vars"], shape["cons"], fmt=shape.get("fmt", "coo"))
@@ -107,6 +114,7 @@ def setup(E, shape, faults=False):
         step_solver_type=P.StepSolverType[shape["solver"]],
         newton_type=P.NewtonType[shape.get("newton", "Simplified")],
         validate_input=False,
+        report_rcond=shape.get("report_rcond", False),
     )
     lb, ub = spec["xl"], spec["xu"]
     xh = []
@@ -125,7 +133,20 @@ def setup(E, shape, faults=False):
     else:
         lam = 1.0 / dt
     rec = Recorder()
-    install_oracle(E, rec, faults)
+    install_oracle(E, rec, faults, max_ok_solves)
+    if shape.get("report_rcond"):
+        # the estimator's arithmetic (random vectors, norms, repeated solves) is outside what the
+        # solver can carry; its contract is kept: it returns a float or lets the LinearSolverError
+        # of one of its solves through
+        CE = boot.mod("step.cond_estimate")
+        LSE = boot.mod("linear_solver.linear_solver").LinearSolverError
+
+        def estimate(self):
+            if bool(E.fresh_bool("rcond_solve_fails")):
+                raise LSE("injected failure inside the condition estimate")
+            return E.fresh_real("rcond")
+
+        CE.ConditionEstimator.estimate_rcond = estimate
     spy_step_result()
     orig = Iterate(user, params, arr(xh), arr(yh))
     return dict(user=user, spec=spec, params=params, orig=orig, xh=xh, yh=yh, rho=rho, dt=dt, lam=lam, rec=rec, n=n, m=m)
@@ -297,3 +318,31 @@ def h_qp(E, shape):
     val = items(std.value_at(nxt, rho, np.array(mask, dtype=bool)))
     E.prove(land(*[v == 0.0 for v in val]), "C14.qp_one_step_solves_implicit_euler")
 
+
+
+def h_rcond(E, shape):
+    """C09: condition-number reporting does not change the computed step (the estimator is the
+    contract stub: any float, or a LinearSolverError from one of its solves)"""
+    N = boot.mod("newton")
+    shape = dict(shape, report_rcond=True)
+    ctx = setup(E, shape)
+    outs = []
+    for flag in (False, True):
+        ctx["params"].report_rcond = flag
+        ctx["rec"].made.clear()
+        ctx["rec"].solves.clear()
+        ctx["rec"].replay = [outs[0][4]] if outs else None
+        method = N.newton_method(ctx["user"], ctx["params"], ctx["orig"], ctx["dt"], ctx["rho"])
+        step = method.step(ctx["orig"])
+        M, r, trans, s = ctx["rec"].solves[0]
+        outs.append((M, r, items(step.raw_dx), items(step.dy), s, items(step.iterate.x), step.rcond))
+    (M0, r0, dx0, dy0, s0, x0, rc0), (M1, r1, dx1, dy1, s1, x1, rc1) = outs
+    ok = len(M0) == len(M1)
+    if ok:
+        for i in range(len(M0)):
+            ok = land(ok, r0[i] == r1[i])
+            for j in range(len(M0)):
+                ok = land(ok, M0[i][j] == M1[i][j])
+    E.prove(ok, "C09.rcond_reporting_same_linear_system")
+    E.prove(land(common.eq_all(dx0, dx1), common.eq_all(dy0, dy1), common.eq_all(x0, x1)), "C09.rcond_reporting_same_step")
+    E.prove(rc0 is None, "C09.no_rcond_unless_requested")
